@@ -177,6 +177,9 @@ U_C19(zz) ==
      VDecl([C0 |-> Class(DefaultOpts, <<U1("t"), RefSelF("v", EF("t"), <<[key |-> 0, alt |-> IntF("", 2, FALSE, "default")],
                                                                           [key |-> 1, alt |-> RefF("", "C1")]>>, "chooses", IntV(3)),
                                         DataF("m", SzMarker(<<0>>, FALSE, TRUE)), EmF("tail")>>), C1 |-> SubD], "subsets", 0, FALSE),
+     \* a declared default written as a TUPLE of packets: every construction still gets elements of its own
+     VDecl([C0 |-> Class(DefaultOpts, <<U1("n"), [RepCountF("r", RefF("e", "C1"), SzConst(2), NoCond, 0)
+                                                    EXCEPT !.dflt = <<SubV(3, 0), SubV(7, 0)>>] @@ [tupledflt |-> TRUE]>>), C1 |-> SubD], "subsets", 0, FALSE),
      \* an embedding reference: the embedded fields take the declared defaults of the embedded CLASS (not the values of the
      \* prototype instance - the documented quirk), and the embedded class itself is left as it was declared
      VDecl([C0 |-> Class(DefaultOpts, Embedded("p", "C1", <<[n |-> "x", v |-> IntV(1)], [n |-> "y", v |-> IntV(2)]>>, SubD.fields)
